@@ -168,6 +168,9 @@ def n1(model: Model, rep: Report):
     ev = Evaluator(model, inline_methods=False)
     ps = PathEnumerator(ev).function_paths(g, self_cls=P)
     src_param, split = sym(g.param_names[0]), sym(g.param_names[1])
+    import ast as _ast
+    if any(isinstance(n, _ast.While) for n in _ast.walk(g.node)) or sum(isinstance(n, _ast.For) for n in _ast.walk(g.node)) != 1:
+        raise AnalysisError("split_instruction_blocks: not a single pass over the instructions (the block splitter is read only in that shape)")
     for p in ps:
         lp = loop_of(p)
         if lp is None:
@@ -186,7 +189,7 @@ def n1(model: Model, rep: Report):
             else:
                 sub_names.add(apps[0][1][1][1] if apps[0][1][1][0] in ("var", "loopvar") else None)
             if subst(bp.cond, {is_split: TRUE}) == TRUE:
-                if len(ys) != 1 or ys[0].term != apps[0][1][1]:
+                if len(ys) != 1 or not apps or ys[0].term != apps[0][1][1]:
                     bad.append("a block is not yielded at its split instruction")
                 nv = bp.env.get(apps[0][1][1][1]) if apps and apps[0][1][1][0] in ("var", "loopvar") else None
                 if not (nv is not None and nv[0] == "var" and nv[3] == ("list", ())):
@@ -570,10 +573,13 @@ def n6(model: Model, rep: Report):
     bad = []
     for p in ps:
         v = p.value
-        while v is not None and v[0] == "call" and v[1] in ("sorted", "list") and len(v[2]) == 1:
-            srt = True
-            v = v[2][0]
-        is_sorted = p.value is not None and find_calls(p.value, "sorted") or (p.value is not None and p.value[0] == "call" and p.value[1] == "sorted") or (p.value is not None and p.value[0] == "bag")
+        unique = False
+        while v is not None and ((v[0] == "call" and v[1] in ("sorted", "list", "set", "frozenset", "tuple") and len(v[2]) == 1) or (v[0] == "var" and v[3] is not None and (v[3][0] == "comp" or (v[3][0] == "call" and len(v[3][2]) == 1)))):
+            if v[0] == "call":
+                unique = unique or v[1] in ("set", "frozenset")
+                v = v[2][0]
+            else:
+                v = v[3]
         if not (p.value is not None and (p.value[0] == "call" and p.value[1] == "sorted")):
             bad.append("the result is not sorted")
         loops = [e for e in p.events if e.kind == "loop"]
@@ -591,8 +597,14 @@ def n6(model: Model, rep: Report):
             if not (ok and inner_ok):
                 bad.append("not every target of every instruction is collected")
         elif v is not None and v[0] == "comp":
-            if not (len(v[3]) == 2 and v[3][0][0] == circ and not v[3][0][1] and not v[3][1][1] and "extract_instruction_targets" in show(v[3][1][0])):
+            unique = unique or v[1] == "set"
+            inner = v[3][1][0] if len(v[3]) == 2 else None
+            whole = inner is not None and inner[0] == "call" and inner[1] == ("fn", "intrf_noise_factory.extract_instruction_targets") \
+                and [x[0] for x in list(inner[2]) + [y for _, y in inner[3]]] == ["bound"] and v[2][0] == "bound"
+            if not (whole and v[3][0][0] == circ and not v[3][0][1] and not v[3][1][1]):
                 bad.append("not every target of every instruction is collected")
+            if not unique:
+                bad.append("duplicates are not removed")
         else:
             bad.append(f"result is {show(p.value)[:80] if p.value else None}")
     if not ps:
